@@ -47,7 +47,21 @@ fn setup(live: usize) -> String {
     format!("(define keep (let loop ((i 0) (acc '())) (if (< i {}) (loop (+ i 1) (cons (vector i (list i)) acc)) acc)))", live)
 }
 
+/// Loops whose only live datum is the object made by the previous iteration (passed on as a loop
+/// argument): the live set is one object whatever n is.
+const ROLLING: [(&str, &str); 5] = [
+    ("rolling:pair", "(cons i i)"),
+    ("rolling:vector", "(vector i i)"),
+    ("rolling:closure-over-loop-variable", "(lambda () i)"),
+    ("rolling:closure-over-fresh-binding", "((lambda (x) (lambda () x)) i)"),
+    ("rolling:continuation", "(call/cc (lambda (k) k))"),
+];
+
 pub fn measure_loop(body: &str, live: usize, n: u64) -> Result<Usage, String> {
+    measure_loop_shape(body, live, n, false)
+}
+
+pub fn measure_loop_shape(body: &str, live: usize, n: u64, rolling: bool) -> Result<Usage, String> {
     let base = alloc::live_bytes() as isize;
     let mut m = MwVm::new();
     for f in parse_forms(&setup(live)) {
@@ -56,7 +70,11 @@ pub fn measure_loop(body: &str, live: usize, n: u64) -> Result<Usage, String> {
             return Err(show_outcome(&r.outcome));
         }
     }
-    let prog = format!("(let loop ((i 0)) (if (< i {}) (begin {} (loop (+ i 1))) 'done))", n, body);
+    let prog = if rolling {
+        format!("(let loop ((i 0) (prev #f)) (if (< i {}) (loop (+ i 1) {}) 'done))", n, body)
+    } else {
+        format!("(let loop ((i 0)) (if (< i {}) (begin {} (loop (+ i 1))) 'done))", n, body)
+    };
     for f in parse_forms(&prog) {
         // no instruction watchdog here: long loops are the point
         match crate::mw::catch(|| m.vm.eval(&f)) {
@@ -148,7 +166,7 @@ pub fn run(ctx: &Ctx, rep: &mut Report) {
     let ns: Vec<u64> = if ctx.quick() { vec![10_000] } else { vec![10_000, 100_000] };
     let lives = [0usize, 10, 1000];
     let mut cases: Vec<(usize, usize, u64)> = vec![];
-    for k in 0..=KINDS.len() {
+    for k in 0..=KINDS.len() + ROLLING.len() {
         for l in lives {
             for n in &ns {
                 cases.push((k, l, *n));
@@ -165,7 +183,10 @@ pub fn run(ctx: &Ctx, rep: &mut Report) {
             }
         }
         rep.evaluations += 1;
-        let (kind, small, large) = if *k == KINDS.len() {
+        let (kind, small, large) = if *k > KINDS.len() {
+            let (name, body) = ROLLING[*k - KINDS.len() - 1];
+            (name, measure_loop_shape(body, *live, *n, true), measure_loop_shape(body, *live, *n * 10, true))
+        } else if *k == KINDS.len() {
             // eval-based loops and top-level evaluations are slower: scale n down by 10 for them
             ("code-compiled-by-successive-top-level-evaluations", measure_toplevel(*live, *n / 10), measure_toplevel(*live, *n))
         } else {
